@@ -222,7 +222,7 @@ pub fn run(cfg: &Cfg) -> i32 {
         // and C: server hello delivered only after the client's hello went out
         let plan = Plan {
             first: vec![], late: 0, block_sends: vec![0], block_after_write: vec![], yield_between: false, hello_preloaded: false,
-            extra: vec![], drops: 0, hello: hello.clone(), reply_pad: vec![],
+            extra: vec![], drops: 0, hello: hello.clone(), reply_pad: vec![], fail_after_write: vec![],
         };
         // actions offered at the choice point: Poll / DeliverHello / Release in this order; choose
         // DeliverHello first (B), or Release first (C)
